@@ -145,29 +145,34 @@ Definition redirect_pipe (parent child stream : Z) (nonblocking : bool) : MW (Z 
   end.
 
 Definition redirect_init (parent child stream : Z) (rd : redirect) (nonblocking : bool) (out : Z)
-  : MW (Z * Z * Z) :=
+  : MW (Z * Z * Z * redirect) :=
   let ty := rd_type rd in
-  if ty =? REPROC_REDIRECT_PIPE then redirect_pipe parent child stream nonblocking
+  if ty =? REPROC_REDIRECT_PIPE then
+    let* '(r, p, c) := redirect_pipe parent child stream nonblocking in ret (r, p, c, rd)
   else if ty =? REPROC_REDIRECT_PARENT then
     let* '(r, c) := redirect_parent child stream in
-    let* '(r, c) := (if r =? REPROC_EPIPE then redirect_discard c stream else ret (r, c)) in
-    if r <? 0 then ret (r, parent, c) else ret (r, PIPE_INVALID, c)
+    let* '(r, c, rd) := (if r =? REPROC_EPIPE then
+                           let* '(r, c) := redirect_discard c stream in
+                           (* we own the discard handle: redirect_destroy must close it *)
+                           ret (r, c, if 0 <=? r then rd_set_type REPROC_REDIRECT_DISCARD rd else rd)
+                         else ret (r, c, rd)) in
+    if r <? 0 then ret (r, parent, c, rd) else ret (r, PIPE_INVALID, c, rd)
   else if ty =? REPROC_REDIRECT_DISCARD then
     let* '(r, c) := redirect_discard child stream in
-    if r <? 0 then ret (r, parent, c) else ret (r, PIPE_INVALID, c)
-  else if ty =? REPROC_REDIRECT_HANDLE then ret (0, PIPE_INVALID, rd_handle rd)
+    if r <? 0 then ret (r, parent, c, rd) else ret (r, PIPE_INVALID, c, rd)
+  else if ty =? REPROC_REDIRECT_HANDLE then ret (0, PIPE_INVALID, rd_handle rd, rd)
   else if ty =? REPROC_REDIRECT_FILE then
     let* '(r, c) := redirect_file child (rd_file rd) in
-    if r <? 0 then ret (r, parent, c) else ret (r, PIPE_INVALID, c)
-  else if ty =? REPROC_REDIRECT_STDOUT then ret (0, PIPE_INVALID, out)
+    if r <? 0 then ret (r, parent, c, rd) else ret (r, PIPE_INVALID, c, rd)
+  else if ty =? REPROC_REDIRECT_STDOUT then ret (0, PIPE_INVALID, out, rd)
   else if ty =? REPROC_REDIRECT_PATH then
     match rd_path rd with
     | Some path =>
         let* '(r, c) := redirect_path child stream path in
-        if r <? 0 then ret (r, parent, c) else ret (r, PIPE_INVALID, c)
-    | None => ret (REPROC_EINVAL, parent, child)   (* unreachable after parse_options *)
+        if r <? 0 then ret (r, parent, c, rd) else ret (r, PIPE_INVALID, c, rd)
+    | None => ret (REPROC_EINVAL, parent, child, rd)   (* unreachable after parse_options *)
     end
-  else ret (REPROC_EINVAL, parent, child).          (* DEFAULT (assert) / out of range *)
+  else ret (REPROC_EINVAL, parent, child, rd).          (* DEFAULT (assert) / out of range *)
 
 (* redirect.c:136-164; which types close comes from the regenerated switch table *)
 Definition redirect_destroy (child ty : Z) : MW Z :=
@@ -469,6 +474,9 @@ Definition reproc_new : MW (option rp) :=
   let* b := sys_malloc SIZEOF_REPROC_T in
   if b =? 0 then ret None else ret (Some (rp_new b)).
 
+Definition o_with_redirects (i ou e : redirect) (x : options) : options :=
+  o_with_parsed i ou e (o_deadline x) (o_stop x) x.
+
 Definition argv_form_of (argv : option (list str)) : argv_form :=
   match argv with None => ArgvNull | Some [] => ArgvEmpty | Some _ => ArgvOk end.
 
@@ -499,16 +507,19 @@ Definition reproc_start (p : rp) (argv : option (list str)) (o0 : options) (inpu
   match parse_options o0 (argv_form_of argv) with
   | None => start_finish p REPROC_EINVAL o0 HANDLE_INVALID HANDLE_INVALID HANDLE_INVALID PIPE_INVALID
   | Some o =>
-      let* '(r, pin, cin) := redirect_init (h_in p) HANDLE_INVALID REPROC_STREAM_IN (o_in o)
-                                           (o_nonblocking o) HANDLE_INVALID in
+      let* '(r, pin, cin, rdi) := redirect_init (h_in p) HANDLE_INVALID REPROC_STREAM_IN (o_in o)
+                                                (o_nonblocking o) HANDLE_INVALID in
+      let o := o_with_redirects rdi (o_out o) (o_err o) o in
       let p := rp_with_in pin p in
       if r <? 0 then start_finish p r o cin HANDLE_INVALID HANDLE_INVALID PIPE_INVALID else
-      let* '(r, pout, cout) := redirect_init (h_out p) HANDLE_INVALID REPROC_STREAM_OUT (o_out o)
-                                             (o_nonblocking o) HANDLE_INVALID in
+      let* '(r, pout, cout, rdo) := redirect_init (h_out p) HANDLE_INVALID REPROC_STREAM_OUT (o_out o)
+                                                  (o_nonblocking o) HANDLE_INVALID in
+      let o := o_with_redirects (o_in o) rdo (o_err o) o in
       let p := rp_with_out pout p in
       if r <? 0 then start_finish p r o cin cout HANDLE_INVALID PIPE_INVALID else
-      let* '(r, perr, cerr) := redirect_init (h_err p) HANDLE_INVALID REPROC_STREAM_ERR (o_err o)
-                                             (o_nonblocking o) cout in
+      let* '(r, perr, cerr, rde) := redirect_init (h_err p) HANDLE_INVALID REPROC_STREAM_ERR (o_err o)
+                                                  (o_nonblocking o) cout in
+      let o := o_with_redirects (o_in o) (o_out o) rde o in
       let p := rp_with_err perr p in
       if r <? 0 then start_finish p r o cin cout cerr PIPE_INVALID else
       let* '(r, pp) := pipe_init in
